@@ -182,11 +182,11 @@ theorem state_loaded_objects_once_value (fl : Flags) (lib : List Cls) (sg : SGra
     or any parameter mentions `m`, across roots too; the objects are those of `order`, without repetition, each
     holding, for every present parameter, the configured value (references again being the objects of the
     referenced configurations); every configuration mentioned by the value or by a parameter of a written
-    configuration has its object.  Hypotheses: references stay inside the graph; no dictionary of the value or
-    of a parameter has a key `"type"` (the model writes such a dictionary unwrapped — `C12.dict_type_key_witness`). -/
+    configuration has its object.  Hypothesis: references stay inside the graph.  (A dictionary with a key `"type"`,
+    in the value or in a parameter, is written wrapped as `{"type": "dict", "value": …}` and comes back as itself:
+    `C12.dict_type_key_round_trip`; before fix 738540e it did not — `C12.dict_type_key_witness`.) -/
 theorem state_loaded_mirror (fl : Flags) (lib : List Cls) (sg : SGraph) (v : Val)
-    (hwf : WF sg.g) (hkv : noTypeKey v = true) (hr : ∀ r ∈ cfgRefs v, r < sg.g.size)
-    (hk : ∀ n, Needed sg.g (cfgRefs v) n → ∀ a ∈ (sg.g.node n).args, noTypeKey a.value = true) :
+    (hwf : WF sg.g) (hr : ∀ r ∈ cfgRefs v, r < sg.g.size) :
     let order := serialOrder sg.g (cfgRefs v)
     fromStateDictInst (stateDict fl lib sg v)
       = .ok (order.map (fun n => (n, ((sg.g.node n).args.filter present).map (fun a => (a.name, a.value)))), v) ∧
@@ -196,7 +196,7 @@ theorem state_loaded_mirror (fl : Flags) (lib : List Cls) (sg : SGraph) (v : Val
     (∀ m ∈ order, (loadStateLog (stateDict fl lib sg v).1 (stateDict fl lib sg v).2).count (Ev.new m) = 1) := by
   intro order
   obtain ⟨hnd, hiff, _, hcl⟩ := serialOrder_spec sg.g (cfgRefs v) hwf hr
-  refine ⟨fromStateDictInst_stateDict fl lib sg v hwf hkv hr hk, hnd,
+  refine ⟨fromStateDictInst_stateDict fl lib sg v hwf hr, hnd,
     fun m hm => (hiff m).2 ⟨m, hm, Reach.refl m⟩,
     fun n hn m hm => hcl n hn m (argRefs_sub_succAll sg.g n m hm), fun m hm => ?_⟩
   have h := (loadStateLog_objects fl lib sg (cfgRefs v) (encJ v) hwf hr m).1
@@ -297,7 +297,6 @@ example : WF demo2.g := by
   rcases this with h | h | h | h | h | h <;> subst h <;>
     simp [succAll, demo2, Graph.node, argRefs, cfgRefsL, cfgRefs, optL] at hm <;> simp [Graph.size, demo2] <;> omega
 example : cfgRefs demo2v = [0, 1, 0] ∧ serialOrder demo2.g (cfgRefs demo2v) = [4, 2, 0, 3, 1] := by decide
-example : noTypeKey demo2v = true ∧ ∀ n ∈ [0, 1, 2, 3, 4, 5], ∀ a ∈ (demo2.g.node n).args, noTypeKey a.value = true := by decide
 example : loadStateLog (stateDict demo2fl [] demo2 demo2v).1 (stateDict demo2fl [] demo2 demo2v).2 =
     [.new 4, .new 2, .new 0, .new 3, .new 1,
      .init 4, .set 4 [119], .postInit 4, .init 2, .set 2 [118], .postInit 2, .init 0, .set 0 [120], .postInit 0,
